@@ -74,3 +74,21 @@ package providers
 //@   modifies everything
 //@   ensures result.1 == nil ==> result.0 != nil
 //@   ensures result.1 != nil ==> result.0 == nil
+
+//@ interface Provider.Revoke(s *sessions.SessionState) error
+//@   modifies nothing
+
+//@ interface Provider.Data() *ProviderData
+//@   modifies nothing
+
+// ---- C19: revocation: nil exactly when the identity provider said ok or "already revoked" --------------
+//@ func (p *GoogleProvider) Revoke(s *sessions.SessionState) error
+//@   modifies everything
+//@   ensures [C19] revoked_or_already: result == nil <==> called(@googleRequest#1) && (@googleRequest#1 == nil || @googleRequest#1 == ErrTokenRevoked)
+//@   ensures [C19] error_passed_on: result != nil ==> result == @googleRequest#1
+//@   ensures [C19] revokes_this_token: called(@googleRequest#1) && before(@googleRequest#1, formGet(arg(@googleRequest#1, 3), "token")) == old(s.AccessToken)
+
+//@ func (p *OktaProvider) Revoke(s *sessions.SessionState) error
+//@   modifies everything
+//@   ensures [C19] revoked_or_already: result == nil <==> called(@oktaRequest#1) && (@oktaRequest#1 == nil || @oktaRequest#1 == ErrTokenRevoked)
+//@   ensures [C19] error_passed_on: result != nil ==> result == @oktaRequest#1
